@@ -1012,7 +1012,7 @@ def run_history(pid, tier, seed):
                     with f3_rule_disabled():
                         again = explore(spec, min(cap, 1500), check_c10, Stats())
                     if not (again["v10"] if check_c10 else again["v09"]):
-                        st.known_hit("F3", f"pool {spec.name}: {why}")
+                        st.known_hit("F3", f"pool {spec.name}: {why}", key=("pool", spec.name), case=case)
                         continue
                 st.violation(case)
         return st
@@ -1088,7 +1088,8 @@ def simplification_history_phase(tier, seed):
                     st.violation({"term": M.to_json(t), "show": M.show(t), "pool_name": "(simplification history)", "history": [],
                                   "why": probs[0][1]})
                 else:
-                    st.known_hit("F3", f"{M.show(t)}: {probs[0][1][:160]}")
+                    st.known_hit("F3", f"{M.show(t)}: {probs[0][1][:160]}", key=("gen2", M.show(t)),
+                                 case={"term": M.to_json(t), "show": M.show(t), "pool_name": "(simplification history)", "history": []})
         logging.disable(logging.NOTSET)
         return st
 
